@@ -38,6 +38,7 @@ class Hist:
                 self.keys.append(k)
         self.snaps = {}
         self.nsnap = 0
+        self.iters = {}
         self.val_seed = rng.below(1 << 30)
 
     def emit(self, s):
@@ -71,6 +72,7 @@ class Hist:
 
     def reopen(self):
         self.snaps = {}
+        self.iters = {}
         self.emit('close')
         self.open()
 
@@ -112,12 +114,6 @@ class Hist:
             self.snaps[sid] = True
             self.emit('snap %d' % sid)
 
-    def rel(self):
-        if self.snaps:
-            sid = self.rng.choice(sorted(self.snaps))
-            del self.snaps[sid]
-            self.emit('rel %d' % sid)
-
     def iter_walk(self, n):
         r = self.rng
         ops = [r.choice(['F', 'L', 'S:%s' % proto.arg(self.key())])]
@@ -136,6 +132,48 @@ class Hist:
         if self.snaps and r.chance(1, 2):
             sid = str(r.choice(sorted(self.snaps)))
         self.emit('iter %s %s' % (sid, ','.join(ops)))
+
+    def walk_ops(self, n):
+        r = self.rng
+        ops = [r.choice(['F', 'L', 'S:%s' % proto.arg(self.key())])]
+        for _ in range(n):
+            k = r.below(12)
+            if k < 4:
+                ops.append('N')
+            elif k < 8:
+                ops.append('P')
+            elif k < 9:
+                ops.append(r.choice(['F', 'L']))
+            else:
+                t = r.choice([self.key(), self.key() + b'\x00', self.key()[:-1], b'', b'\xff\xff\xff'])
+                ops.append('%s:%s' % (r.choice(['S', 'GE', 'GT', 'LE', 'LT']), proto.arg(t)))
+        return ','.join(ops)
+
+    def live_iter(self):
+        """open, use or close a long-lived iterator (it pins its version across later flushes and compactions)"""
+        r = self.rng
+        if self.iters and r.chance(1, 4):
+            i = r.choice(sorted(self.iters))
+            del self.iters[i]
+            self.emit('iclose %d' % i)
+        elif len(self.iters) < 3 and (not self.iters or r.chance(1, 3)):
+            i = min(set(range(16)) - set(self.iters))
+            self.iters[i] = True
+            if self.snaps and r.chance(1, 3):
+                self.emit('iopen %d %d' % (i, r.choice(sorted(self.snaps))))
+            else:
+                self.emit('iopen %d' % i)
+            self.emit('iop %d %s' % (i, self.walk_ops(r.range(2, 8))))
+        else:
+            i = r.choice(sorted(self.iters))
+            self.emit('iop %d %s' % (i, self.walk_ops(r.range(3, 15))))
+
+    def rel(self):
+        # snapshots used by a live iterator stay (releasing is legal, but keep the script simple)
+        if self.snaps:
+            sid = self.rng.choice(sorted(self.snaps))
+            del self.snaps[sid]
+            self.emit('rel %d' % sid)
 
     def structural(self):
         r = self.rng
@@ -170,10 +208,14 @@ def family_random(rng, dbdir, opts, nops):
             h.snap()
         elif k < 16:
             h.rel()
-        elif k < 18:
+        elif k < 17:
             h.iter_walk(rng.range(3, 25))
+        elif k < 19:
+            h.live_iter()
         else:
             h.read_all(sample=8)
+    for i in sorted(h.iters):
+        h.emit('iop %d %s' % (i, h.walk_ops(12)))
     h.read_all()
     h.iter_walk(30)
     h.emit('ls')
